@@ -161,6 +161,23 @@ def check_archive(path, model, ctx, where):
             raise Violation("snapshot %d of %d differs from the live state when it was written" % (k, len(model)),
                             diff=sa_format.map_diff(m, mk, names)[:8])
         del s
+    # the other documented ways of loading snapshot k: Simulation(file, k), Simulation(file, snapshot=k), negative
+    # indices (Simulation(archive_object, ...) is an internal path: it needs an archive opened with
+    # process_warnings=False and is not documented)
+    n = len(model)
+    for k in sorted({0, n - 1, (n - 1) // 2}):
+        forms = [("Simulation(file, %d)" % k, lambda: rebound.Simulation(path, k)),
+                 ("Simulation(file, snapshot=%d)" % k, lambda: rebound.Simulation(path, snapshot=k)),
+                 ("archive[%d]" % (k - n), lambda: sa[k - n])]
+        for what, load in forms:
+            try:
+                s = load()
+            except Exception as e:
+                raise Violation("%s of an archive with %d snapshots cannot be loaded: %r" % (what, n, e))
+            if rb.smap(s) != model[k][1]:
+                raise Violation("%s of an archive with %d snapshots does not return the state written as snapshot %d "
+                                "(loaded t=%r, written at t=%r)" % (what, n, k, s.t, model[k][0]))
+            del s
     del sa
 
 
